@@ -144,6 +144,8 @@ def run(ctx):
                 log("timing-based rejection not reproduced (%d/3): treated as a scheduler stall, not a violation" % len(rej2))
                 continue
             sig += ":threshold-not-counted-from-call-start"
+        if ev.get("ev") == "CancelIgnored":
+            sig += ":call-does-not-end-when-context-ends"
         ctx.violation(sig, "real trace is not a behaviour of Fallback.tla satisfying C20 (rejected at event %s: %s)" % (
             info.get("line_in_trace"), info.get("event")), r)
     # binding self-check: flip the logged result of an accepted trace, drop a logged wake reason
